@@ -20,6 +20,7 @@ CONSTANTS FixUnprotect,   \* TRUE: UnProtect length-checks every packet (repaire
           PunchMin,       \* 33 = punchMinWireLen; 32 = window off by one            (mutant)
           FeedIdxCheck,   \* FALSE: Defragger.Feed without FragID >= FragCount        (mutant)
           Mode,           \* "shapes" | "seq" | "all"
+          Only,           \* "" or the one decoder whose shapes are enumerated (mutant configurations)
           MaxSteps        \* length of the sequences into the stateful receivers
 
 VARIABLES sh, pc, df, gk, steps, mon, hist
@@ -95,7 +96,9 @@ QuicShapes ==
       /\ (s.trunc # "none" => s.fb = 192 /\ s.ver = "v1" /\ s.scil = 0 /\ s.tokl = 0 /\ s.plen = 40 /\ s.body = 0 /\ ~s.aead
                               /\ (s.trunc = "dcid" => s.dcil > 0))
       /\ (s.trunc \in {"fb", "ver", "dcil", "scil", "tok", "len"} => s.dcil = 8)
-      /\ (s.aead => s.ver \in {"v1", "v2"} /\ s.plen \in {21, 40} /\ s.body >= s.plen /\ s.tokl # HUGE) }
+      \* aead: the harness encrypts a real payload into this header.  Long headers only: in the short form header
+      \* protection also masks bit 4, so the type bits the parser sees would not be the ones of the shape.
+      /\ (s.aead => s.fb >= 128 /\ s.ver \in {"v1", "v2"} /\ s.plen \in {21, 40} /\ s.body >= s.plen /\ s.tokl # HUGE) }
 IsInitialType(s) == ((s.fb \div 16) % 4) = (IF s.ver = "v2" THEN 1 ELSE 0)
 QuicOff(s) == 1 + 4 + 1 + s.dcil + 1 + s.scil + (IF IsInitialType(s) THEN VLen(s.tokl) + s.tokl ELSE 0) + VLen(s.plen)
 Quic(s) ==
@@ -254,9 +257,19 @@ GkStep == /\ pc = "geckoseq" /\ steps < MaxSteps
           /\ UNCHANGED <<sh, pc, df>>
 
 \* -------------------------------------------------------------
-AllShapes(s) == \/ s \in UDPMsgShapes \/ s \in TcpReqShapes \/ s \in TcpRespShapes \/ s \in FragShapes \/ s \in QuicShapes
-                \/ s \in CFrameShapes \/ s \in SalShapes \/ s \in GeckoShapes \/ s \in PunchShapes
-                \/ s \in SpeedSrvShapes \/ s \in SpeedCliShapes
+On(d) == Only = "" \/ Only = d
+AllShapes(s) ==
+  \/ (On("udpmsg") /\ s \in UDPMsgShapes)
+  \/ (On("tcpreq") /\ s \in TcpReqShapes)
+  \/ (On("tcpresp") /\ s \in TcpRespShapes)
+  \/ (On("frag") /\ s \in FragShapes)
+  \/ (On("quic") /\ s \in QuicShapes)
+  \/ (On("cframes") /\ s \in CFrameShapes)
+  \/ (On("salamander") /\ s \in SalShapes)
+  \/ (On("gecko") /\ s \in GeckoShapes)
+  \/ (On("punch") /\ s \in PunchShapes)
+  \/ (On("speedsrv") /\ s \in SpeedSrvShapes)
+  \/ (On("speedcli") /\ s \in SpeedCliShapes)
 
 Init == /\ \/ Mode \in {"shapes", "all"} /\ pc = "shape" /\ AllShapes(sh)
            \/ Mode \in {"seq", "all"} /\ pc \in {"feedseq", "geckoseq"} /\ sh = [dec |-> pc]
